@@ -7,6 +7,10 @@ func (c *Ctx) Run(prop, tier string) {
 	switch prop {
 	case "C07":
 		c.RunC07(tier)
+	case "C03":
+		c.RunC03(tier)
+	case "C08":
+		c.RunC08(tier)
 	default:
 		c.Rep.Note("engine e4 has no space for " + prop)
 	}
@@ -17,6 +21,8 @@ func (c *Ctx) Replay(prop, wit string) error {
 	switch prop {
 	case "C07":
 		return c.ReplayC07(wit)
+	case "C03", "C08":
+		return c.replaySrc(prop, wit)
 	}
 	return fmt.Errorf("no replay for %s", prop)
 }
